@@ -234,6 +234,9 @@ def main(argv=None):
                                 real = prop.real_replay(ob, cex)
                             except UnicodeError as e:
                                 notes.append('real-tool replay of %r impossible: %s' % (cex, e))
+                            except Exception as e:
+                                # the concrete replay through the harness body (real code) stands
+                                notes.append('real-tool replay of %r crashed: %r' % (cex, e))
                             rec['real_replay'] = real
                         if real is not None and not real.get('reproduced'):
                             harness_errors.append('%s: counterexample %r fails in the model but '
@@ -405,4 +408,13 @@ def do_replay(prop, path):
 
 
 if __name__ == '__main__':
-    sys.exit(main())
+    try:
+        rc = main()
+    except SystemExit:
+        raise
+    except BaseException:
+        import traceback
+        traceback.print_exc()
+        print('HARNESS-ERROR: the runner itself crashed (exit 3: nothing is claimed)')
+        rc = 3
+    sys.exit(rc)
